@@ -464,14 +464,16 @@ class NDNApp:
         """
         name = Name.normalize(name)
         del self._prefix_tree[name]
-        try:
-            _, _, reply = await self.express_interest(
-                make_command('rib', 'unregister', self.face, name=name), lifetime=1000)
-            return parse_response(reply)['status_code'] == 200
-        except (InterestNack, InterestTimeout, InterestCanceled, ValidationFailure):
-            return False
-        except (DecodeError, ValueError, IndexError, TypeError, struct.error):
-            return False
+        # Same as register: only one command at a time
+        async with self._prefix_register_semaphore:
+            try:
+                _, _, reply = await self.express_interest(
+                    make_command('rib', 'unregister', self.face, name=name), lifetime=1000)
+                return parse_response(reply)['status_code'] == 200
+            except (InterestNack, InterestTimeout, InterestCanceled, ValidationFailure):
+                return False
+            except (DecodeError, ValueError, IndexError, TypeError, struct.error):
+                return False
 
     def set_interest_filter(self, name: NonStrictName, func: Route,
                             validator: Validator | None = None, need_raw_packet: bool = False,
